@@ -128,6 +128,12 @@ func runRedeem(ctx *action.Context, tx action.RawTx) (bool, action.Response) {
 	if err != nil {
 		return helpers.LogAndReturnFalse(ctx.Logger, gov.ErrGetEthOptions, redeem.Tags(), err)
 	}
+	// the tracker is named after the submitted bytes and the witnesses decode them strictly: bytes
+	// that are not exactly one RLP-encoded Ethereum transaction (e.g. a transaction followed by
+	// padding) must not debit the owner and open a second tracker for the same redeem
+	if _, err = ethereum.DecodeTransaction(redeem.ETHTxn); err != nil {
+		return helpers.LogAndReturnFalse(ctx.Logger, action.ErrInvalidExtTx, redeem.Tags(), err)
+	}
 	req, err := ethereum.ParseRedeem(redeem.ETHTxn, ethOptions.ContractABI)
 	if err != nil {
 		return helpers.LogAndReturnFalse(ctx.Logger, action.ErrInvalidExtTx, redeem.Tags(), err)
